@@ -115,6 +115,41 @@ class PCTChooser(Chooser):
         return best
 
 
+class BoundedChooser(Chooser):
+    """Preemption-bounded systematic search (Musuvathi/Qadeer): switching away from a task that could
+    continue costs one unit of the budget; choices among tasks at a point where the running task
+    blocked or finished are free.  `prefix` holds positions in the ordered list of allowed options."""
+
+    def __init__(self, prefix=None, bound=1):
+        super().__init__(None, prefix, "first")
+        self.bound = bound
+        self.used = 0
+        self.last_label = None
+
+    def pick(self, n, kind, labels=None):
+        if kind != "task" or labels is None:
+            return super().pick(n, kind, labels)
+        if self.last_label in labels:
+            cur = labels.index(self.last_label)
+            order = [cur] + ([i for i in range(n) if i != cur] if self.used < self.bound else [])
+        else:
+            cur = None
+            order = list(range(n))
+        if len(order) == 1:
+            idx = order[0]
+        else:
+            pos = self.prefix[self.pos] if self.pos < len(self.prefix) else 0
+            if pos >= len(order):
+                pos = len(order) - 1
+            self.pos += 1
+            self.decisions.append((pos, len(order)))
+            idx = order[pos]
+        if cur is not None and idx != cur:
+            self.used += 1
+        self.last_label = labels[idx]
+        return idx
+
+
 class HintChooser(Chooser):
     """Follows a list of task-name hints (e.g. projected from a TLC behaviour); a hint whose
     task is not enabled is skipped, so hints steer but can never invalidate a run."""
